@@ -1,9 +1,10 @@
 (* Property C10: FST files load faithfully.  Pinned: the value path - fst::SignalWriter::{add_change, finish} and
-   expand_entries (the on-the-fly widening), for bit-vector signals of width >= 1.  The FST container (blocks,
+   expand_entries (the on-the-fly widening), for bit-vector signals of width >= 1 (fst_writer_spec) and for real and
+   string signals (fst_writer_rs_spec).  The FST container (blocks,
    compression, hierarchy bytes, time chain) is decoded by the dependency fst-reader and is not modelled; the
    hierarchy and whole-file behaviour are decided by the file-level generators (MANIFEST level_note). *)
 From WV Require Import Model.Base Model.Bits Model.WaveMem Model.FstLoad Proofs.BitsProofs Proofs.StoreProofs
-  Proofs.EncoderProofs Proofs.FstProofs.
+  Proofs.EncoderProofs Proofs.FstProofs Proofs.RealStringEnc Proofs.FstRealString.
 Open Scope N_scope.
 
 (* the signal built from the changes the FST reader delivers reports exactly those changes (time index, least kind,
@@ -30,7 +31,17 @@ Check stored_render :
   get_value_at (SigBits mx bits (snd (get_len_and_meta mx bits)) (bpe_of mx bits) (pre ++ w ++ post)) k
   = do s <- lookup_all (lookup_table l) syms; Ok (kind_of_states l, s).
 
+(* real and string signals: every delivered change is reported with its time index and bytes, a change repeating the
+   value before it once *)
+Check fst_writer_rs_spec :
+  forall str changes sw, Forall (fst_rs_ok str) changes ->
+  sw_run (sw_new (rs_tpe str)) changes = Ok sw ->
+  observe_signal (sw_finish sw)
+  = Ok (map (fun a : N * list byte => (fst a, if str then KString else KReal, snd a))
+            (gdedup (map (fun c : N * fst_value => (fst c, fv_payload (snd c))) changes))).
+
 Print Assumptions fst_writer_spec.
+Print Assumptions fst_writer_rs_spec.
 Print Assumptions expand_one_stored.
 Print Assumptions expand_entries_spec.
 Print Assumptions stored_render.
